@@ -6,13 +6,14 @@ From PV Require Import Lib.Bytes Gen.MkByteSets Model.MkLexPrim Model.MkLexer Mo
   Model.MkLineSplit Model.MatchVarassign Spec.MkPartition Proofs.MkLineSplit Proofs.Varassign.
 From PV Require Import Proofs.MkLexPrim Proofs.MkLexer.
 From Coq Require Import ZifyBool ZifyN ZifyNat.
-From PV Require Model.Lines.
+From PV Require Import Proofs.VarassignFull Proofs.RawAlignWalk.
+From PV Require Model.Lines Proofs.LinesLoop.
 Import ListNotations.
 Open Scope N_scope.
 
 (* ---- one raw line: the model of Model/MkLineSplit.v, literally ---- *)
 
-Lemma ml_tail_single c text sr : match_varassign_tail_ml false text c sr = match_varassign_tail c text sr.
+Lemma ml_tail_single c text sr : match_varassign_tail_ml false text text c sr = match_varassign_tail c text sr.
 Proof. reflexivity. Qed.
 
 Lemma ml_single text : parse_varassign_ml false text text = parse_varassign text.
@@ -20,9 +21,10 @@ Proof. reflexivity. Qed.
 
 (* ---- an accepted line passed the guard, and is accepted by the tail run against raw0 ---- *)
 
-Lemma ml_tail_accept ml raw0 c sr a :
-  match_varassign_tail_ml ml raw0 c sr = Ok (Some a) ->
-  match_varassign_tail c raw0 sr = Ok (Some a) /\ (ml = true -> first_raw_has_equals raw0 = true).
+Lemma ml_tail_accept ml raw0 text c sr a :
+  match_varassign_tail_ml ml raw0 text c sr = Ok (Some a) ->
+  match_varassign_tail c raw0 sr = Ok (Some a) /\
+  (ml = true -> exists up_to_op r, text = up_to_op ++ r /\ (length up_to_op <= length (first_line_of raw0))%nat).
 Proof.
   unfold match_varassign_tail_ml, match_varassign_tail. intro H.
   destruct (tokenize (sr_main sr)) as [toks| |]; cbn [bind] in *; try discriminate.
@@ -33,16 +35,22 @@ Proof.
   destruct (next_bytes is_hspace (fst lexer2)) as [sav cur3].
   match type of H with context [skip_byte 61 ?c4] => destruct (skip_byte 61 c4) as [cur5|] end; [|discriminate].
   match type of H with (if ?c then Panic else _) = _ => destruct c; [discriminate|] end.
-  destruct ml; cbn [andb] in H.
-  - destruct (first_raw_has_equals raw0); cbn [negb] in H; [|discriminate]. split; [exact H|reflexivity].
-  - split; [exact H|discriminate].
+  destruct ml.
+  - match type of H with context [get_raw_value_align text ?p] =>
+      pose proof (get_raw_value_align_post text p) as P; destruct (get_raw_value_align text p) as [up| |] end;
+      cbn [bind] in H; try discriminate.
+    destruct (length (first_line_of raw0) <? length up)%nat eqn:Lt; [discriminate|].
+    split; [exact H|]. intros _. destruct P as (r & Hr). exists up, r. split; [exact Hr|].
+    apply Nat.ltb_ge in Lt. exact Lt.
+  - cbn [bind] in H. split; [exact H|discriminate].
 Qed.
 
 (* the shape in which matchVarassign reaches its tail: T is the text that was split into sr *)
 Lemma ml_accept ml raw0 text a :
   parse_varassign_ml ml raw0 text = Ok (Some a) ->
   exists (c : bool) T sr, split T true = Ok sr /\ text = (if c then [35] else []) ++ T /\
-    match_varassign_tail c raw0 sr = Ok (Some a) /\ (ml = true -> first_raw_has_equals raw0 = true).
+    match_varassign_tail c raw0 sr = Ok (Some a) /\
+    (ml = true -> exists up_to_op r, text = up_to_op ++ r /\ (length up_to_op <= length (first_line_of raw0))%nat).
 Proof.
   unfold parse_varassign_ml. destruct (split text true) as [first| |] eqn:E1; cbn [bind]; try discriminate.
   unfold match_varassign_ml.
@@ -50,7 +58,8 @@ Proof.
   - apply andb_true_iff in C as [_ Hp]. apply has_prefix_app in Hp as (t1 & Ht1).
     destruct (next_bytes is_hspace (sr_comment first)) as [hs crest].
     destruct (nonempty hs || negb (nonempty crest)); [discriminate|].
-    subst text. rewrite skip_ok by (simpl; lia). cbn [bind skipn app].
+    destruct (skip 1 text) as [t1'| |] eqn:Esk; cbn [bind]; try discriminate.
+    assert (t1' = t1) by (subst text; rewrite skip_ok in Esk by (simpl; lia); inversion Esk; reflexivity). subst t1'.
     destruct (split t1 true) as [sr| |] eqn:E2; cbn [bind]; try discriminate.
     intro Hm. apply ml_tail_accept in Hm as [Hm Hg].
     exists true, t1, sr. auto.
@@ -58,9 +67,12 @@ Proof.
     exists false, text, first. auto.
 Qed.
 
-(* every accepted multi-line assignment has its "=" in the first raw line *)
+(* every accepted multi-line assignment has its operator in the first raw line: the raw text of the
+   logical line up to and including the operator is no longer than the first physical line without
+   its continuation backslash and trailing blanks *)
 Lemma varassign_ml_guard raw0 text a :
-  parse_varassign_ml true raw0 text = Ok (Some a) -> first_raw_has_equals raw0 = true.
+  parse_varassign_ml true raw0 text = Ok (Some a) ->
+  exists up_to_op r, text = up_to_op ++ r /\ (length up_to_op <= length (first_line_of raw0))%nat.
 Proof. intro H. destruct (ml_accept _ _ _ _ H) as (c & T & sr & _ & _ & _ & Hg). auto. Qed.
 
 (* for every accepted assignment, whatever the raw lines are: [#] ++ pre ++ comment is the logical
@@ -113,40 +125,114 @@ Proof.
   - exists []. repeat split; auto.
 Qed.
 
-(* ---- a line without "=" in its first raw line is rejected before the raw line is looked at ---- *)
+(* ---- no panic: the guard makes getRawValueAlign(raw[0], ...) safe ---- *)
 
-Lemma ml_tail_rejected raw0 c text sr r :
-  first_raw_has_equals raw0 = false ->
-  match_varassign_tail c text sr = Ok r ->
-  match_varassign_tail_ml true raw0 c sr = Ok None.
+Lemma rtrim_snoc_nh X c : is_hspace c = false -> rtrim_hspace (X ++ [c]) = X ++ [c].
 Proof.
-  unfold match_varassign_tail_ml, match_varassign_tail. intros Hg H. rewrite Hg.
-  destruct (tokenize (sr_main sr)) as [toks| |]; cbn [bind] in *; try discriminate.
-  cbv zeta in *.
-  destruct (Varname _) as [[vname mkrest]| |]; cbn [bind] in *; try discriminate.
-  destruct (tl_skip_mixed _ _ _) as [lexer2| |]; cbn [bind] in *; try discriminate.
-  destruct vname as [|v0 vname]; [reflexivity|].
-  destruct (next_bytes is_hspace (fst lexer2)) as [sav cur3].
-  match type of H with context [skip_byte 61 ?c4] => destruct (skip_byte 61 c4) as [cur5|] end; [|reflexivity].
-  match type of H with (if ?c then Panic else _) = _ => destruct c; [discriminate|] end.
-  reflexivity.
+  intro Hc. induction X as [|a t IH]; cbn [app rtrim_hspace]; [rewrite Hc; reflexivity|].
+  rewrite IH. destruct (t ++ [c]) eqn:E; [destruct t; discriminate|reflexivity].
 Qed.
 
-Lemma varassign_ml_rejected raw0 text r :
-  first_raw_has_equals raw0 = false ->
-  parse_varassign text = Ok r ->
-  parse_varassign_ml true raw0 text = Ok None.
+Lemma ends_nh_snoc X c : is_hspace c = false -> ends_nh (X ++ [c]).
+Proof. intro Hc. split; [apply rtrim_snoc_nh; exact Hc|destruct X; discriminate]. Qed.
+
+Lemma trim_suffix_app A suf : MkTokensLexer.trim_suffix (A ++ suf) suf = A.
 Proof.
-  intro Hg. unfold parse_varassign_ml, parse_varassign.
-  destruct (split text true) as [first| |] eqn:E1; cbn [bind]; try discriminate.
-  unfold match_varassign_ml, match_varassign.
-  destruct (negb (nonempty (sr_main first)) && sr_has_comment first && has_prefix [35] text).
-  - destruct (next_bytes is_hspace (sr_comment first)) as [hs crest].
-    destruct (nonempty hs || negb (nonempty crest)); [reflexivity|].
-    destruct (skip 1 text) as [t1| |]; cbn [bind]; try discriminate.
-    destruct (split t1 true) as [sr| |]; cbn [bind]; try discriminate.
-    apply ml_tail_rejected; exact Hg.
-  - apply ml_tail_rejected; exact Hg.
+  unfold MkTokensLexer.trim_suffix, has_suffix. rewrite app_length.
+  replace (length A + length suf - length suf)%nat with (length A) by lia.
+  rewrite skipn_app, skipn_all, Nat.sub_diag. cbn [skipn app]. rewrite str_eqb_refl.
+  replace (length suf <=? length A + length suf)%nat with true by (symmetry; apply Nat.leb_le; lia).
+  cbn [andb]. rewrite firstn_app, firstn_all, Nat.sub_diag. cbn [firstn]. apply app_nil_r.
+Qed.
+
+Lemma tl_since_app (mark m : tlexer) A : tl_rest mark = A ++ tl_rest m -> tl_since mark m = A.
+Proof. intro H. unfold tl_since. rewrite H. apply trim_suffix_app. Qed.
+
+(* the shape of the two raw texts: F is the first physical line without continuation backslash and
+   trailing blanks; it starts the text of the logical line as well *)
+Lemma ml_tail_no_panic raw0 (c : bool) text sr r F x y :
+  text = F ++ x -> raw0 = F ++ y -> first_line_of raw0 = F ->
+  match_varassign_tail c text sr = Ok r ->
+  match_varassign_tail_ml true raw0 text c sr <> Panic.
+Proof.
+  intros Htext Hraw HF H. unfold match_varassign_tail_ml, match_varassign_tail in *.
+  destruct (tokenize (sr_main sr)) as [toks| |] eqn:Et; cbn [bind] in *; try discriminate.
+  cbv zeta in *.
+  set (lexer1 := if c then tl_new toks else tl_lift skip_spaces (tl_new toks)) in *.
+  assert (S1 : is_suffix (tl_rest lexer1) (tl_rest (tl_new toks))).
+  { unfold lexer1. destruct c; [apply is_suffix_refl|]. unfold tl_lift. apply tl_cur_suffix, skip_spaces_suffix. }
+  destruct (Varname _) as [[vname mkrest]| |]; cbn [bind] in *; try discriminate.
+  destruct (tl_skip_mixed _ _ lexer1) as [lexer2| |] eqn:E2; cbn [bind] in *; try discriminate.
+  apply tl_skip_mixed_suffix in E2.
+  destruct vname as [|v0 vname]; [discriminate|].
+  destruct (next_bytes is_hspace (fst lexer2)) as [sav cur3] eqn:E3.
+  pose proof (next_bytes_eq _ _ _ _ E3) as Hcur.
+  match type of H with context [skip_byte 61 ?c4] => destruct (skip_byte 61 c4) as [cur5|] eqn:E5 end; [|discriminate].
+  match type of H with (if ?cc then Panic else _) = _ => destruct cc; [discriminate|] end.
+  (* the main part = A5 ++ rest of lexer5, and A5 ends with "=" *)
+  set (R2 := concat (map fst (snd lexer2))) in *.
+  assert (Hop : exists opc, cur3 = opc ++ [61] ++ cur5).
+  { destruct cur3 as [|c0 t]; [discriminate|].
+    destruct ((c0 =? 33) || (c0 =? 43) || (c0 =? 58) || (c0 =? 63)).
+    - destruct t as [|c1 t']; [discriminate|]. cbn [skip_byte] in E5.
+      destruct (c1 =? 61) eqn:E61; [|discriminate]. apply N.eqb_eq in E61. inversion E5; subst. exists [c0]. reflexivity.
+    - cbn [skip_byte] in E5. destruct (c0 =? 61) eqn:E61; [|discriminate]. apply N.eqb_eq in E61. inversion E5; subst. exists []. reflexivity. }
+  destruct Hop as (opc & Hopc).
+  destruct (is_suffix_trans _ _ _ E2 S1) as (B & HB).
+  assert (H5 : tl_rest (tl_new toks) = ((B ++ sav ++ opc) ++ [61]) ++ tl_rest (cur5, snd lexer2)).
+  { rewrite HB. unfold tl_rest. cbn [fst snd]. fold R2. rewrite Hcur, Hopc. rewrite <- !app_assoc. reflexivity. }
+  set (A5 := (B ++ sav ++ opc) ++ [61]) in *.
+  rewrite (tl_since_app _ _ _ H5).
+  (* lexer6 *)
+  match type of H with context [has_suffix [43] ?v && ?b && ?d] => destruct (has_suffix [43] v && b && d) end;
+  cbv beta iota in *.
+  all: set (hs := fst (next_bytes is_hspace cur5)) in *.
+  all: assert (Hhs : forallb is_hspace hs = true) by (apply span_all).
+  all: assert (H6 : tl_rest (tl_new toks) = (A5 ++ hs) ++ tl_rest (tl_lift (fun s => snd (next_bytes is_hspace s)) (cur5, snd lexer2)))
+    by (rewrite H5; unfold tl_rest, tl_lift; cbn [fst snd]; rewrite <- (next_bytes_app is_hspace cur5) at 1; fold hs; rewrite <- !app_assoc; reflexivity).
+  all: rewrite (tl_since_app _ _ _ H6) in *.
+  all: set (pref := if c then [35] else []) in *.
+  all: assert (Hp5 : ends_nh (pref ++ A5)) by (unfold A5; rewrite app_assoc; apply ends_nh_snoc; reflexivity).
+  all: destruct (get_raw_value_align text (pref ++ A5 ++ hs)) as [al6| |] eqn:G6; cbn [bind] in H; try discriminate.
+  all: unfold get_raw_value_align in G6.
+  all: destruct (raw_value_align_loop (S (length (pref ++ A5 ++ hs))) text (pref ++ A5 ++ hs)) as [r6| |] eqn:L6; cbn [bind] in G6; try discriminate.
+  all: rewrite app_assoc in L6.
+  all: destruct (loop_prefix _ (S (length (pref ++ A5))) _ _ _ _ Hp5 L6 ltac:(lia)) as (rT & LT).
+  all: unfold get_raw_value_align at 1; rewrite LT; cbn [bind].
+  all: destruct (length (first_line_of raw0) <? length (since text rT))%nat eqn:Lt; [discriminate|].
+  all: apply Nat.ltb_ge in Lt.
+  all: assert (Hx : (length x <= length rT)%nat)
+    by (pose proof (is_suffix_length _ _ (loop_suffix _ _ _ _ LT)) as Sl;
+        unfold since in Lt; rewrite firstn_length in Lt; rewrite HF in Lt; subst text; rewrite app_length in *; lia).
+  all: assert (HFr : rtrim_hspace F = F) by (rewrite <- HF; unfold first_line_of; apply rtrim_idem).
+  all: subst text raw0.
+  all: destruct (loop_common_prefix _ (S (length ((pref ++ A5) ++ hs))) (pref ++ A5) hs F x y rT Hp5 Hhs HFr LT Hx
+         ltac:(lia)) as (r' & Lr).
+  all: unfold get_raw_value_align; rewrite (app_assoc pref A5 hs), Lr; cbn [bind].
+  all: match goal with |- context [trim_hspace ?z] => destruct (trim_hspace z) end; discriminate.
+Qed.
+
+(* one raw line (raw0 = text), or several with the shape convertToLogicalLines gives them *)
+Definition ml_shape (ml : bool) (raw0 text : str) : Prop :=
+  if ml then exists x y, text = first_line_of raw0 ++ x /\ raw0 = first_line_of raw0 ++ y
+  else raw0 = text.
+
+Lemma varassign_ml_no_panic ml raw0 text r :
+  ml_shape ml raw0 text ->
+  parse_varassign text = Ok r -> parse_varassign_ml ml raw0 text <> Panic.
+Proof.
+  destruct ml; cbn [ml_shape].
+  - intros (x & y & Ht & Hr). unfold parse_varassign_ml, parse_varassign.
+    destruct (split text true) as [first| |] eqn:E1; cbn [bind]; try discriminate.
+    unfold match_varassign_ml, match_varassign.
+    destruct (negb (nonempty (sr_main first)) && sr_has_comment first && has_prefix [35] text).
+    + destruct (next_bytes is_hspace (sr_comment first)) as [hs crest].
+      destruct (nonempty hs || negb (nonempty crest)); [discriminate|].
+      destruct (skip 1 text) as [t1| |]; cbn [bind]; try discriminate.
+      destruct (split t1 true) as [sr| |]; cbn [bind]; try discriminate.
+      eapply ml_tail_no_panic; eauto.
+    + eapply ml_tail_no_panic; eauto.
+  - intros -> H. rewrite ml_single, H. discriminate.
 Qed.
 
 (* ---- all logical lines of a file (C09's convertToLogicalLines) ---- *)
@@ -161,7 +247,9 @@ Lemma varassign_of_file_lines raw_text ls :
   Forall (fun lr : Lines.line * res (option varassign) =>
     forall a, snd lr = Ok (Some a) ->
       va_law (Lines.text (fst lr)) a /\
-      (line_multiline (fst lr) = true -> first_raw_has_equals (line_raw0 (fst lr)) = true)) ls.
+      (line_multiline (fst lr) = true ->
+       exists up_to_op r, Lines.text (fst lr) = up_to_op ++ r /\
+         (length up_to_op <= length (first_line_of (line_raw0 (fst lr))))%nat)) ls.
 Proof.
   unfold varassign_of_file.
   destruct (Lines.convert_to_logical_lines raw_text true) as [[lines w]| |]; cbn [lift_lines_res bind]; try discriminate.
@@ -174,33 +262,59 @@ Proof.
   eapply varassign_ml_guard; exact Ha.
 Qed.
 
-(* ---- the guard does not decide "the operator lies in the first raw line" ---- *)
+(* every line that convertToLogicalLines builds has at least one raw line (C09): line.raw[0] exists *)
+Lemma grouped_raws_nonempty k rs ls : LinesLoop.grouped k rs ls -> Forall (fun l => Lines.raws l <> []) ls.
+Proof.
+  induction 1; constructor; [|assumption].
+  match goal with Hr : Lines.raws _ = _ |- _ => rewrite Hr end.
+  eapply LinesLoop.group_ok_nonempty; eassumption.
+Qed.
 
-(* VAR.${PARAM:S,=,,}\  /  = value : the first raw line contains "=" (inside the expression), the
-   operator is in the continuation line; getRawValueAlign's assert(pch == '#') fails *)
-Definition ml_witness_file : str :=
-  [86;65;82;46;36;123;80;65;82;65;77;58;83;44;61;44;44;125;92;10;61;32;118;97;108;117;101;10].
-Definition ml_witness_raw0 : str := [86;65;82;46;36;123;80;65;82;65;77;58;83;44;61;44;44;125;92].
-Definition ml_witness_text : str := [86;65;82;46;36;123;80;65;82;65;77;58;83;44;61;44;44;125;32;61;32;118;97;108;117;101].
-(* the shortest one: $=\ / = *)
-Definition ml_witness2_file : str := [36;61;92;10;61;10].
+Lemma convert_raws_nonempty raw_text ls w :
+  Lines.convert_to_logical_lines raw_text true = Lines.Ok (ls, w) -> Forall (fun l => Lines.raws l <> []) ls.
+Proof.
+  unfold Lines.convert_to_logical_lines.
+  set (rl := filter _ _).
+  destruct (LinesLoop.mk_loop_spec rl (length rl) 0 []) as (ls' & E & G);
+    [change (N.to_nat 0) with 0%nat; apply Nat.le_0_l|change (N.to_nat 0) with 0%nat; rewrite Nat.sub_0_r; apply le_n|].
+  rewrite E. cbn [app]. intro H.
+  assert (ls = ls').
+  { destruct (negb (Lines.is_empty raw_text) && negb (Lines.has_suffix [Lines.nl] raw_text));
+      [destruct ls'; [discriminate|inversion H; reflexivity]|inversion H; reflexivity]. }
+  subst. eapply grouped_raws_nonempty; eassumption.
+Qed.
 
+(* FULL statement over files (neither proved nor refuted here: it needs, from C09, that the first
+   physical line without backslash and trailing blanks starts the logical text - corresponded) *)
 Definition ml_no_panic_full : Prop :=
   forall raw_text ls, varassign_of_file raw_text = Ok ls ->
     Forall (fun lr : Lines.line * res (option varassign) =>
       (exists r, parse_varassign (Lines.text (fst lr)) = Ok r) -> snd lr <> Panic) ls.
 
+(* PARTIAL: the same with the shape of the line spelled out *)
+Lemma ml_no_panic_lines raw_text ls : varassign_of_file raw_text = Ok ls ->
+    Forall (fun lr : Lines.line * res (option varassign) =>
+      ml_shape (line_multiline (fst lr)) (line_raw0 (fst lr)) (Lines.text (fst lr)) ->
+      (exists r, parse_varassign (Lines.text (fst lr)) = Ok r) -> snd lr <> Panic) ls.
+Proof.
+  unfold varassign_of_file.
+  destruct (Lines.convert_to_logical_lines raw_text true) as [[lines w]| |] eqn:E; cbn [lift_lines_res bind]; try discriminate.
+  intro H. inversion H; subst ls. clear H.
+  pose proof (convert_raws_nonempty _ _ _ E) as NE. rewrite Forall_forall in NE.
+  apply Forall_forall. intros lr Hin. apply in_map_iff in Hin as (l & <- & Hl). cbn [fst snd].
+  unfold line_multiline, line_raw0, varassign_of_line. specialize (NE l Hl).
+  destruct (Lines.raws l) as [|r0 more]; [congruence|].
+  intros Hs (r & Hr). destruct more as [|r1 more]; eapply varassign_ml_no_panic; eauto.
+Qed.
+
+(* ---- the former witness of the panic: VAR.${PARAM:S,=,,}\  /  = value ---- *)
+Definition ml_witness_file : str :=
+  [86;65;82;46;36;123;80;65;82;65;77;58;83;44;61;44;44;125;92;10;61;32;118;97;108;117;101;10].
+Definition ml_witness_raw0 : str := [86;65;82;46;36;123;80;65;82;65;77;58;83;44;61;44;44;125;92].
+Definition ml_witness_text : str := [86;65;82;46;36;123;80;65;82;65;77;58;83;44;61;44;44;125;32;61;32;118;97;108;117;101].
+
+(* the operator is in the continuation line: not an assignment, no panic *)
 Lemma ml_witness_lines :
   varassign_of_file ml_witness_file =
-    Ok [(Lines.mk_line 1 ml_witness_text [ml_witness_raw0 ++ [10]; [61;32;118;97;108;117;101;10]], Panic)].
+    Ok [(Lines.mk_line 1 ml_witness_text [ml_witness_raw0 ++ [10]; [61;32;118;97;108;117;101;10]], Ok None)].
 Proof. vm_compute. reflexivity. Qed.
-
-Lemma ml_witness_text_parses : exists a, parse_varassign ml_witness_text = Ok (Some a).
-Proof. eexists. vm_compute. reflexivity. Qed.
-
-Lemma ml_no_panic_refuted : ~ ml_no_panic_full.
-Proof.
-  intro H. specialize (H _ _ ml_witness_lines).
-  inversion H as [|x l Hx _]; subst. cbn [fst snd Lines.text] in Hx.
-  apply Hx; [|reflexivity]. destruct ml_witness_text_parses as (a & Ha). exists (Some a). exact Ha.
-Qed.
